@@ -454,6 +454,7 @@ def replay_job(job):
         out["skip"] = "base:" + type(ex).__name__ + ":" + str(ex)[:200]
         return out
     clone = None
+    insync = False
     steps = [("pre", e) for e in job["pre"]] + [("clone", NOEDIT)] + [(s["tgt"], s["e"]) for s in job["post"]]
     for tgt, e in steps:
         rec = {"tgt": tgt, "e": e, "ro": "-", "rc": "-"}
@@ -476,12 +477,19 @@ def replay_job(job):
             rec["ac"] = abs_of(cls, clone) if clone is not None else EMPTY_ABS
         rec["do"] = digest(cls, orig)
         rec["dc"] = digest(cls, clone) if clone is not None else ""
-        if clone is None:
+        # `==`, kind and hash are observed where the judge reads them: right after clone() and while every
+        # call since was made on both problems with the same outcome (the reverse comparison right after
+        # clone(), and throughout for multi-agent problems, whose __eq__ is written asymmetrically)
+        if tgt == "clone":
+            insync = True
+        elif clone is not None:
+            insync = insync and tgt == "both" and (rec["ro"] == "ok") == (rec["rc"] == "ok")
+        if clone is None or not insync:
             rec.update(eq="-", eqr="-", heq="-", keq="-")
         else:
             rec["keq"] = observe(lambda: orig.kind == clone.kind)
             rec["eq"] = observe(lambda: orig == clone)
-            rec["eqr"] = observe(lambda: clone == orig)
+            rec["eqr"] = observe(lambda: clone == orig) if (tgt == "clone" or cls == "ma") else "-"
             rec["heq"] = observe(lambda: hash(orig) == hash(clone))
         out["ops"].append(rec)
     return out
@@ -638,8 +646,8 @@ def run_t1(ctx):
     out["uncopied_field_counterexamples"] = {"%s/%s" % k: v for k, v in sorted(cex.items())}
     out["uncopied_fields_without_counterexample"] = sorted("%s/%s" % (c, f) for c in UNCOPIED for f in UNCOPIED[c] if (c, f) not in cex)
     if not q:
-        res2, _ = t1(ctx, "full", 1, 2, 3, True, "full")
-        ctx.add_tlc("T1 repaired, pre<=1 post<=2 (+1 look-ahead)", res2)
+        res2, _ = t1(ctx, "full", 1, 2, 2, True, "full")
+        ctx.add_tlc("T1 repaired, pre<=1 post<=2 total<=2 (+1 look-ahead)", res2)
         if res2.violated:
             ctx.violation("T1|repaired|" + res2.violated, "the Impl layer with every field copied violates %s" % res2.violated,
                           {"trace": [s["vars"] for s in res2.trace]})
@@ -664,20 +672,23 @@ def run_t1(ctx):
 # ----------------------------------------------------------------------------------------
 # history generation
 # ----------------------------------------------------------------------------------------
-ENUM_CFG = 'INIT Init\nNEXT Next\nCONSTANTS TimN = {"t1", "t2"}\n DurT = {"s", "e"}\n Tier = "%s"\n Fam = "%s"\n'
+ENUM_CFG = 'INIT Init\nNEXT Next\nCONSTANTS TimN = {"t1", "t2"}\n DurT = {"s", "e"}\n Tier = "%s"\n'
 
 
-def enumerate_histories(ctx, fam):
-    d = ctx.sub("enum-" + fam)
-    out = os.path.join(d, "hist.ndjson")
-    res = tlc.run_tlc("ModelCloneEnum", ENUM_CFG % (ctx.tier, fam), d, env={"OUT": out}, workers=1, timeout=3000)
+def enumerate_histories(ctx):
+    """{"std": [...], "ma": [...]} emitted by one TLC run"""
+    d = ctx.sub("enum")
+    out = {"std": os.path.join(d, "hist_std.ndjson"), "ma": os.path.join(d, "hist_ma.ndjson")}
+    res = tlc.run_tlc("ModelCloneEnum", ENUM_CFG % ctx.tier, d, env={"OUT_STD": out["std"], "OUT_MA": out["ma"]}, workers=1, timeout=3000)
     if res.error:
         raise MachineryError(res.error)
-    hist = tlc.read_ndjson(out)
-    n = [p[1] for p in res.printed if p and p[0] == "EMITTED"]
-    if not hist or not n or n[0] != len(hist):
-        raise MachineryError("ModelCloneEnum emitted %r histories, read %d" % (n, len(hist)))
-    hist.sort(key=lambda h: json.dumps(h, sort_keys=True))
+    n = [p[1:] for p in res.printed if p and p[0] == "EMITTED"]
+    hist = {}
+    for i, fam in enumerate(("std", "ma")):
+        hist[fam] = tlc.read_ndjson(out[fam])
+        if not hist[fam] or not n or n[0][i] != len(hist[fam]):
+            raise MachineryError("ModelCloneEnum emitted %r histories, read %d (%s)" % (n, len(hist[fam]), fam))
+        hist[fam].sort(key=lambda h: json.dumps(h, sort_keys=True))
     return hist
 
 
@@ -723,7 +734,7 @@ def run(ctx):
     ex = ThreadPoolExecutor(max_workers=1)
     fut = ex.submit(run_t1, ctx)  # T1 runs (TLC subprocesses) while the histories are replayed
     try:
-        hist = {"std": enumerate_histories(ctx, "std"), "ma": enumerate_histories(ctx, "ma")}
+        hist = enumerate_histories(ctx)
         jobs = []
 
         def needs_action(h):
@@ -746,8 +757,8 @@ def run(ctx):
 
         short = lambda h: len(h["pre"]) + len(h["post"]) <= 2
         # share of the longer (3-edit) histories replayed per class, and of the 2-edit ones for the subclasses
-        f3 = {"plain": 0.03 if q else 1.0, "cont": 0.01 if q else 0.35, "htn": 0.01 if q else 0.35, "ma": 0.1 if q else 1.0}
-        f2 = {"plain": 1.0, "cont": 0.05 if q else 1.0, "htn": 0.05 if q else 1.0, "ma": 1.0}
+        f3 = {"plain": 0.02 if q else 0.2, "cont": 0.005 if q else 0.1, "htn": 0.005 if q else 0.1, "ma": 0.05 if q else 1.0}
+        f2 = {"plain": 0.3 if q else 1.0, "cont": 0.03 if q else 1.0, "htn": 0.03 if q else 1.0, "ma": 0.3 if q else 1.0}
         for cls in CLASSES:
             for h in hist["ma" if cls == "ma" else "std"]:
                 if short(h):
@@ -766,7 +777,7 @@ def run(ctx):
                 for e in h["pre"] + [s["e"] for s in h["post"]]:
                     seen[json.dumps(e, sort_keys=True)] = e
             edits[fam] = [seen[k] for k in sorted(seen)]
-        nr = 200 if q else 4000
+        nr = 150 if q else 4000
         # (bounded numeric types off: ~10 % of those problems are rejected by the type checker at build time)
         g, tg = Gen(rng, metric="any", bounded=False), TGen(rng, bounded=False)
         gt = Gen(rng, metric="any", traj=True, bounded=False)
@@ -790,7 +801,9 @@ def run(ctx):
         good = [t for t in traces if not t["skip"]]
         if len(good) < 0.9 * len(traces):
             raise MachineryError("too many bases could not be built: %r" % skipped)
-        judge(ctx, "all", good)
+        # (the Json reader is the bottleneck of the judge: batches of 12 000 histories)
+        for i in range(0, len(good), 12000):
+            judge(ctx, "b%d" % (i // 12000), good[i : i + 12000])
         t1info = fut.result()
     finally:
         ex.shutdown(wait=True)
